@@ -276,7 +276,7 @@ pub fn checks() -> Vec<Check> {
             c13::normalise,
             (0, 0),
             3,
-            "22 attribute types x 18 limit shapes x {intensity, red, green, blue} x {next colour channel's limits complete / without maximum / absent} x normalisation on/off; per case every stored value of the range (<=4097) or boundaries + mini-float lattice",
+            "22 attribute types x 23 limit shapes x {intensity, red, green, blue} x {next colour channel's limits complete / without maximum / absent} x normalisation on/off; per case every stored value of the range (<=4097) or boundaries + mini-float lattice",
         ),
             st("c13.late_switch", c13::late_switch, (0, 0), 3, "4 types x 4 attributes x {on->off, off->on} x switch after 1 / 4 points on a 3-packet cloud: the values of the third packet equal those of an iterator configured that way up front"),
         ],
